@@ -238,7 +238,7 @@ func (self *Node) encodeArray(buf *[]byte) error {
 	var started bool
 	for i := 0; i < nb; i++ {
 		n := self.nodeAt(i)
-		if !n.Exists() {
+		if n.unset() {
 			continue
 		}
 		if started {
@@ -284,7 +284,7 @@ func (self *Node) encodeObject(buf *[]byte) error {
 	var started bool
 	for i := 0; i < nb; i++ {
 		n := self.pairAt(i)
-		if n == nil || !n.Value.Exists() {
+		if n == nil || n.Value.unset() {
 			continue
 		}
 		if started {
